@@ -143,7 +143,9 @@ impl Space for Extract {
         // ---- run between two snapshots
         let (before, _) = jail::snapshot(&root);
         let core_only = spec.comps.iter().all(|&c| names::CORE.contains(&names::FULL[c]));
-        let traced = self.runner.strace && (self.trace_all || spec.comps.len() <= 2 || (self.trace_core3 && spec.comps.len() == 3 && core_only));
+        // the descend-then-climb names are few: all of them are traced
+        let climber = spec.prefix == 0 && spec.comps.len() >= 4 && spec.comps[..spec.comps.len() - 1].iter().all(|&c| matches!(names::FULL[c], ".." | "a"));
+        let traced = self.runner.strace && (self.trace_all || spec.comps.len() <= 2 || climber || (self.trace_core3 && spec.comps.len() == 3 && core_only));
         let log_path = self.scratch.path(&format!("logs/t{i}.log"));
         let ro = self.runner.run(&j, &args, if traced { Some(log_path.as_path()) } else { None });
         let (after, contents) = jail::snapshot(&root);
@@ -319,10 +321,26 @@ fn sizes(tier: Tier) -> ((usize, usize), (usize, usize)) {
     }
 }
 
+/// the bounded grammar plus the descend-then-climb names beyond its length bound (appended, so
+/// that the indices of the grammar names do not move)
+fn grammar_names(tier: Tier) -> Vec<names::NameSpec> {
+    let (g, _) = sizes(tier);
+    let mut v = names::enumerate(g.0, g.1);
+    let (lo, hi) = climb_sizes(tier);
+    v.extend(names::climbers(lo, hi));
+    v
+}
+fn climb_sizes(tier: Tier) -> (usize, usize) {
+    match tier {
+        Tier::Quick => (3, 4),
+        Tier::Thorough => (4, 6),
+    }
+}
+
 fn build(name: &str, _arg: &str, tier: Tier) -> Box<dyn Space> {
-    let (g, rel) = sizes(tier);
+    let (_, rel) = sizes(tier);
     match name {
-        "grammar" => Box::new(Extract::new("grammar", names::enumerate(g.0, g.1), false, false, tier == Tier::Thorough)),
+        "grammar" => Box::new(Extract::new("grammar", grammar_names(tier), false, false, tier == Tier::Thorough)),
         "relout" => Box::new(Extract::new("relout", names::enumerate(rel.0, rel.1), true, true, true)),
         _ => panic!("space {name}"),
     }
@@ -352,7 +370,8 @@ fn main() {
     if argv.get(1).map(|s| s.as_str()) == Some("--list-names") {
         let t = if argv.get(2).map(|s| s.as_str()) == Some("thorough") { Tier::Thorough } else { Tier::Quick };
         let (g, _) = sizes(t);
-        for (k, n) in names::enumerate(g.0, g.1).iter().enumerate() {
+        let _ = g;
+        for (k, n) in grammar_names(t).iter().enumerate() {
             println!("{k}\t{}\t{}", n.class(), n.pattern());
         }
         return;
@@ -379,11 +398,11 @@ fn main() {
         eprintln!("warning: strace is not usable here; only the snapshot observer decides");
         c.assume("strace unavailable on this machine: observer (ii) did not run");
     } else {
-        c.assume("observer (ii) on every case of `relout` and, in `grammar`, on every name of <= 2 components (thorough: also every 3-component name over the core alphabet): strace -f -y restricted to mutating path-taking calls; only calls that succeeded are judged (paths normalised lexically, the jail holds no symlinks); allowed targets: out/, <jail>/home, /dev (devices, not /dev/shm), /proc");
+        c.assume("observer (ii) on every case of `relout` and, in `grammar`, on every name of <= 2 components and every descend-then-climb name (thorough: also every 3-component name over the core alphabet): strace -f -y restricted to mutating path-taking calls; only calls that succeeded are judged (paths normalised lexically, the jail holds no symlinks); allowed targets: out/, <jail>/home, /dev (devices, not /dev/shm), /proc");
     }
     c.rule = format!(
-        "case = (entry name, preserve-paths, patch chain, selection); names = prefix x body, body = components joined by independently chosen separators; space `grammar` (absolute --output): every body of <= {} components over the full 10-class alphabet plus every body of {} components over the core alphabet {{.., a, empty, B.txt}}, x 6 prefixes (empty first component only behind a rooted prefix); space `relout` (relative --output ../out): bodies <= {} full / {} core; one adversarial + one benign entry per archive (patch chain: base and patch both carry the adversarial name, distinct tokens). Non-trivial = the tool materialised the adversarial entry somewhere (its unique content token was found on disk); distinct by (space, name, modes). err_return = nothing was extracted at all (refusal).",
-        g.0, g.1, rel.0, rel.1
+        "case = (entry name, preserve-paths, patch chain, selection); names = prefix x body, body = components joined by independently chosen separators; space `grammar` (absolute --output): every body of <= {} components over the full 10-class alphabet plus every body of {} components over the core alphabet {{.., a, empty, B.txt}}, x 6 prefixes (empty first component only behind a rooted prefix), plus the descend-then-climb names {{.., a}}^k B.txt for k = {}..{} (at most 4 `..`, all-backslash and all-slash, no prefix); space `relout` (relative --output ../out): bodies <= {} full / {} core; one adversarial + one benign entry per archive (patch chain: base and patch both carry the adversarial name, distinct tokens). Non-trivial = the tool materialised the adversarial entry somewhere (its unique content token was found on disk); distinct by (space, name, modes). err_return = nothing was extracted at all (refusal).",
+        g.0, g.1, climb_sizes(c.tier).0, climb_sizes(c.tier).1, rel.0, rel.1
     );
     // the binary is shared with other checks and rebuilt by ./check: it must not change under us
     let stamp = |p: &str| std::fs::metadata(p).ok().map(|m| (m.len(), m.modified().ok()));
